@@ -64,15 +64,6 @@ pub fn relabel_op(t: &Tab, p: &[u8]) -> Tab {
     }
     out
 }
-/// Rename a unary map on the carrier.
-pub fn relabel_map(m: &Map, p: &[u8]) -> Map {
-    let mut out = [0u8; MAXN];
-    for a in 0..p.len() {
-        out[p[a] as usize] = p[m[a] as usize];
-    }
-    out
-}
-
 /// The six permutations of {0,1,2} in a fixed order; S3 multiplication table (composition).
 pub fn s3() -> Tab {
     let perms: [[usize; 3]; 6] = [[0, 1, 2], [1, 2, 0], [2, 0, 1], [1, 0, 2], [0, 2, 1], [2, 1, 0]];
